@@ -607,6 +607,11 @@ func runC04(ctx *Ctx) {
 			c04ParamSweep(ctx, n+50+k, k%2)
 		}
 	}
+	for k := 0; k < 2; k++ {
+		if ctx.Want(n + 60 + k) {
+			c06Unfamiliar(ctx, n+60+k, k)
+		}
+	}
 	for c := 0; c < ctx.N(6, 60); c++ {
 		if ctx.Want(n + 100 + c) {
 			e2eCase(ctx, n+100+c, ctx.Sub(n+100+c), "c04-")
@@ -752,6 +757,9 @@ func runC06(ctx *Ctx) {
 		}
 		if ctx.Want(n + 60 + drv) {
 			c06HostConnection(ctx, n+60+drv, drv)
+		}
+		if ctx.Want(n + 70 + drv) {
+			c06Unfamiliar(ctx, n+70+drv, drv)
 		}
 	}
 	forEachCase(ctx, n, func(i int, rng *rand.Rand) {
